@@ -1152,7 +1152,12 @@ fn gen_sampled(seed: u64, i: u64) -> CliCase {
             } else {
                 None
             };
-            let len = g.below(3 * k as u64 + 3) as usize;
+            // mostly a few words; sometimes a stream longer than any I/O buffer (8 KiB, 64 KiB)
+            let len = match g.below(12) {
+                0 => 8000 + g.below(9000) as usize,
+                1 => 65_000 + g.below(3000) as usize,
+                _ => g.below(3 * k as u64 + 3) as usize,
+            };
             let input: Vec<u8> = (0..len).map(|_| g.below(2) as u8).collect();
             if g.chance(1, 12) {
                 return CliCase::EncodeFull { alist: m.to_alist(), input };
